@@ -14,6 +14,8 @@
   The tighter constants each model really needs are in the `*_spec` lemmas it is derived from.
 -/
 import FianoModel.Total.Tie
+import FianoModel.Total.TieB
+import FianoModel.Total.ManifestRefine
 import FianoModel.Fmap.TotalRefine
 
 namespace Fiano.C20
@@ -99,7 +101,7 @@ theorem c20_psb_keydb_safe (bs : Bytes) : Safe (PsbTotal.parseKeyDatabaseG (budg
 theorem c20_psb_pspentry (keys : List PsbTotal.KeyInfo) (bs : Bytes) :
     SafeP (PsbTotal.validateEntryG (budget bs.length) keys bs) {} (fun v _ => ∀ sg sd, v = .reach sg sd →
       sd.length ≤ bs.length ∧ sg.length ≤ bs.length ∧ PsbTotal.pspHeaderSize < sd.length) :=
-  PsbTotal.validateEntryG_spec _ keys bs {} (by unfold budget; dsimp only; omega)
+  SafeP.mono (PsbTotal.validateEntryG_spec _ keys bs {} (by unfold budget; dsimp only; omega)) (fun _ _ h => h.2)
 
 theorem c20_psb_pspentry_safe (keys : List PsbTotal.KeyInfo) (bs : Bytes) :
     Safe (PsbTotal.validateEntryG (budget bs.length) keys bs {}) := (c20_psb_pspentry keys bs).safe
@@ -154,6 +156,213 @@ theorem c20_total_partial (bs : Bytes) (hl : bs.length < FitTotal.two63) :
    c20_microcode_safe bs, c20_me_safe bs, c20_fsp_safe bs, c20_fit_entries_safe bs hl, c20_fit_sacm_safe bs,
    c20_psb_rootkey_safe bs, c20_psb_tokenkey_safe bs, c20_psb_keydb_safe bs, fun keys => c20_psb_pspentry_safe keys bs,
    fun dec => c20_zlib_safe dec bs, fun dec => c20_brotli_safe dec bs⟩
+
+/-! ## follow-up wp-c20b: the generated manifest readers, for every layout
+
+  `ManifestTotal.readG` is the one template all 33 `*_manifestcodegen.go` readers are instances of,
+  written in GoM (every `make`, every `binary.Read`, the list loop, nested structures);
+  `ManifestTotal.containerG` is the dispatch loop of the two boot policy manifests.  The theorems
+  are about **every** `Layout` / `Container`, not about the 33: the budget is a function of the layout
+  (`slope L · |bs| + unpaid L`), and `C20TieB.manifest_layouts_wf` evaluates it on the layouts rebuilt
+  from the regenerated declarations. -/
+
+open Fiano.Manifest in
+/-- **`manifest_read_total`**: for every layout in which list items consume input (`Wf`), every
+    environment of length fields and every byte string, the reader ends in a value or an ordinary
+    error — never a panic, never more than `slope L·|bs| + unpaid L` bytes allocated on any path; a
+    value comes with ≥ `minSize L` bytes consumed and ≤ `slope L` bytes allocated per byte consumed -/
+theorem c20_manifest_read_total (L : Layout) (env : Env) (bs : Bytes) (hwf : ManifestTotal.Wf L = true) :
+    SafeP (ManifestTotal.readG (ManifestTotal.slope L * bs.length + ManifestTotal.unpaid L) L env bs) {}
+      (fun p m' => p.2.length + ManifestTotal.minSize L ≤ bs.length ∧
+        m'.alloc + ManifestTotal.slope L * p.2.length ≤ ManifestTotal.slope L * bs.length) :=
+  ManifestTotal.readG_total L env bs hwf _ (Nat.le_refl _)
+
+open Fiano.Manifest in
+/-- the same for every element container whose struct-info and elements are not empty (`WfC`):
+    additionally never out of fuel — every round of the `for { … }` dispatch loop consumes input — and
+    the indexed `missingFieldsByIndices` array is as long as the slot list -/
+theorem c20_manifest_container_total (C : Container) (bs : Bytes) (hwf : ManifestTotal.WfC C = true) :
+    SafeP (ManifestTotal.containerG (ManifestTotal.cslope C * bs.length + ManifestTotal.cunpaid C) C bs) {}
+      (fun p m' => p.2.length ≤ bs.length ∧
+        m'.alloc + ManifestTotal.cslope C * p.2.length ≤ ManifestTotal.cslope C * bs.length) :=
+  ManifestTotal.containerG_total C bs hwf _ (Nat.le_refl _)
+
+open Fiano.Manifest in
+/-- **the GoM reader is C15's codec model**: for every layout, environment, input, meter and budget —
+    when `readG` ends with a value, `Manifest.decode` returns exactly that value (field values and unread
+    rest); when it ends with an ordinary error, `decode` is an error (`Agree`; a fault says nothing, and
+    `c20_manifest_read_total` excludes faults).  What C15 proves and validates about `decode` is about
+    the function whose totality is proved here. -/
+theorem c20_manifest_read_refines (B : Nat) (L : Layout) (env : Env) (bs : Bytes) (m : Meter) :
+    ManifestTotal.Agree (ManifestTotal.readG B L env bs) m (decode L env bs) :=
+  ManifestTotal.readG_refines B L env bs m
+
+open Fiano.Manifest in
+/-- the same for the dispatch loop of the element containers and `Container.decode` -/
+theorem c20_manifest_container_refines (B : Nat) (C : Container) (bs : Bytes) (m : Meter) :
+    ManifestTotal.Agree (ManifestTotal.containerG B C bs) m (C.decode bs) :=
+  ManifestTotal.containerG_refines B C bs m
+
+/-- what `drv_c20` runs for a structure name (Driver/C20.lean `manifest.read`) -/
+def manifestSafe (q : String) (bs : Bytes) : Prop :=
+  match Manifest.sdefOf Manifest.Tie.src 8 q with
+  | some S => Safe (ManifestTotal.readG (budget bs.length) S.body [] bs {})
+  | none =>
+    match Manifest.containerOf Manifest.Tie.src 8 q (Manifest.Tie.strictOf q) with
+    | some C => Safe (ManifestTotal.containerG (budget bs.length) C bs {})
+    | none => False
+
+/-- **the 33 generated structures** (whatever `Gen.Manifest.structNames` lists now): `ReadFrom` of each,
+    on every byte string, is Safe under the budget of the harness oracle `64·|bs| + 16 MiB` -/
+theorem c20_manifest_generated_safe (q : String) (hq : q ∈ Gen.Manifest.structNames) (bs : Bytes) :
+    manifestSafe q bs := by
+  have hall := C20TieB.manifest_layouts_wf
+  rw [List.all_eq_true] at hall
+  have hq' := hall q hq
+  unfold C20TieB.layoutOK at hq'
+  unfold manifestSafe
+  split
+  · rename_i S hS
+    rw [hS] at hq'
+    simp only [C20TieB.structOK, Bool.and_eq_true, decide_eq_true_eq] at hq'
+    obtain ⟨⟨hwf, hs⟩, hu⟩ := hq'
+    have hmul : ManifestTotal.slope S.body * bs.length ≤ 64 * bs.length := Nat.mul_le_mul_right _ hs
+    exact (ManifestTotal.readG_total S.body [] bs hwf _ (by unfold budget; omega)).safe
+  · rename_i hS
+    rw [hS] at hq'
+    split
+    · rename_i C hC
+      simp only [hC] at hq'
+      simp only [C20TieB.contOK, Bool.and_eq_true, decide_eq_true_eq] at hq'
+      obtain ⟨⟨hwf, hs⟩, hu⟩ := hq'
+      have hmul : ManifestTotal.cslope C * bs.length ≤ 64 * bs.length := Nat.mul_le_mul_right _ hs
+      exact (ManifestTotal.containerG_total C bs hwf _ (by unfold budget; omega)).safe
+    · rename_i hC
+      simp [hC] at hq'
+
+/-- the four manifests by name (the entry points of `observe_at`) -/
+theorem c20_manifest_four_safe (bs : Bytes) :
+    manifestSafe "bgkey.Manifest" bs ∧ manifestSafe "bgbootpolicy.Manifest" bs ∧
+    manifestSafe "cbntkey.Manifest" bs ∧ manifestSafe "cbntbootpolicy.Manifest" bs :=
+  ⟨c20_manifest_generated_safe _ (by decide) bs, c20_manifest_generated_safe _ (by decide) bs,
+   c20_manifest_generated_safe _ (by decide) bs, c20_manifest_generated_safe _ (by decide) bs⟩
+
+/-- `Wf` is needed, not decoration: a layout with two lists whose items consume nothing (`Wf` false)
+    leaves its own budget on the 2-byte input `[255, 2]` — 257 slice headers against a budget for 256 -/
+theorem c20_manifest_wf_needed :
+    ManifestTotal.Wf ManifestTotal.illLayout = false ∧
+    ¬ Safe (ManifestTotal.readG (ManifestTotal.slope ManifestTotal.illLayout * 2 + ManifestTotal.unpaid ManifestTotal.illLayout)
+      ManifestTotal.illLayout [] [255, 2] {}) :=
+  ⟨by decide, ManifestTotal.illLayout_not_safe⟩
+
+/-! ## follow-up wp-c20b: AMD firmware, directories, entry functions (pkg/amd/manifest, pkg/amd/psb) -/
+
+/-- the pre-check constant of `ParseBIOSDirectoryTable` as it is in the tree now -/
+def amdC : Nat := Gen.C20Amd.BIOSDirectoryTableEntrySize
+
+/-- **`ParseAMDFirmware`** (EFS probe over the six anchors with its uint64 address arithmetic, both
+    directory kinds through their pointers and through the cookie scanners, level 2 through the first
+    level-2 entry of level 1): a value or "not found" for every image shorter than 2^63 bytes; never
+    a panic; never out of fuel — every round of a scanner moves ≥ 4 bytes on; ≤ 6·|image| allocated.
+    There is no recursion into level-2 tables, hence no pointer cycle to follow. -/
+theorem c20_amd_firmware_safe (bs : Bytes) (hl : bs.length < AmdTotal.two63) :
+    Safe (AmdTotal.discoverG amdC (budget bs.length) bs {}) :=
+  (AmdTotal.discoverG_spec amdC _ C20TieB.amd_bios_precheck_const bs hl {}
+    (by unfold budget AmdTotal.discoverKSlope; dsimp only; omega)).safe
+
+/-- parse, then **any** entry function (`ExtractPSPEntry` = `DumpPSPEntry`, `PatchPSPEntry`, `GetEntries`
+    and their BIOS twins) with any level, type, instance and replacement: Safe with the bytes of the
+    replacement added to the budget (`io.ReadAll` of the caller's reader) -/
+theorem c20_amd_entries_safe (bs : Bytes) (hl : bs.length < AmdTotal.two63) (op : AmdTotal.Op) :
+    Safe (AmdTotal.firmwareOpG amdC (budget bs.length + op.extra) bs op {}) :=
+  (AmdTotal.firmwareOpG_spec amdC _ C20TieB.amd_bios_precheck_const bs hl op {}
+    (by unfold budget AmdTotal.discoverKSlope AmdTotal.opKSlope; dsimp only; omega)).safe
+
+/-- **`ParseAMDFirmware`, then `psb.GetKeys`** (root key, signed key database, ABL key, optional OEM key)
+    for every level and **every** verdict function of the RSA checks: a value or an error, never a
+    panic, never out of fuel (`parseKeyDatabase` consumes ≥ 4 bytes per round), ≤ 22·|image| allocated —
+    every signature buffer is as long as a modulus that was itself read out of the image -/
+theorem c20_amd_getkeys_safe (bs : Bytes) (hl : bs.length < AmdTotal.two63) (verify : Bytes → Bytes → Bool) (level : Nat) :
+    Safe (AmdTotal.firmwareKeysG amdC (budget bs.length) verify bs level {}) :=
+  (AmdTotal.firmwareKeysG_spec amdC _ C20TieB.amd_bios_precheck_const verify bs hl level {}
+    (by unfold budget AmdTotal.firmwareKeysKSlope; dsimp only; omega)).safe
+
+/-- the two scanners and the two table parsers directly on bytes (`amd.tables`) -/
+theorem c20_amd_tables_safe (bs : Bytes) :
+    Safe (AmdTotal.parsePSPG (budget bs.length) bs {}) ∧ Safe (AmdTotal.parseBIOSG amdC (budget bs.length) bs {}) ∧
+    Safe (AmdTotal.findPSPG (budget bs.length) bs {}) ∧ Safe (AmdTotal.findBIOSG amdC (budget bs.length) bs {}) := by
+  refine ⟨?_, ?_, ?_, ?_⟩
+  · exact (AmdTotal.parsePSPG_ok _ bs {} (by unfold budget; dsimp only; omega)).safe
+  · exact (AmdTotal.parseBIOSG_ok amdC _ C20TieB.amd_bios_precheck_const bs {} (by unfold budget; dsimp only; omega)).safe
+  · exact (AmdTotal.scanG_spec _ 1 AmdTotal.pspSz _ _ (by simp) (AmdTotal.parsePSPG_ok _) _ bs 0 {} (by omega)
+      (by unfold budget; dsimp only; omega)).safe
+  · exact (AmdTotal.scanG_spec _ 2 AmdTotal.biosSz _ _ (by simp)
+      (AmdTotal.parseBIOSG_ok amdC _ C20TieB.amd_bios_precheck_const) _ bs 0 {} (by omega)
+      (by unfold budget; dsimp only; omega)).safe
+
+set_option maxRecDepth 1000000 in
+/-- **the unrepaired pre-check constant 16** (a BIOS entry has 24 bytes): on a 320-byte input of 20
+    cookie headers the scanner allocates 19·|input| — it does not stay within the 6·|input| that suffice
+    for the whole repaired `parsePSPFirmware`; with 24 the same input costs nothing.  (On the real
+    code: 64 KiB → 567 MiB; corpus/C20/amd-bios-scan-quadratic.json.) -/
+theorem c20_amd_bios_scan_unrepaired_witness :
+    ¬ Safe (AmdTotal.findBIOSG 16 (6 * AmdTotal.quadWitness.length) AmdTotal.quadWitness {}) ∧
+    Safe (AmdTotal.findBIOSG 24 (6 * AmdTotal.quadWitness.length) AmdTotal.quadWitness {}) := by
+  constructor
+  · have h : (match AmdTotal.findBIOSG 16 (6 * AmdTotal.quadWitness.length) AmdTotal.quadWitness {} with
+        | .error (.panic _) => true | _ => false) = true := by decide
+    intro hs
+    unfold Safe at hs
+    split at hs <;> simp_all
+  · exact (AmdTotal.scanG_spec _ 2 AmdTotal.biosSz _ _ (by simp) (AmdTotal.parseBIOSG_ok 24 _ (by decide)) _ _ 0 {}
+      (by omega) (by simp only; omega)).safe
+
+/-! ## follow-up wp-c20b: FIT RecalculateHeaders + Inject, record ParseData -/
+
+/-- **`GetEntries` → `RecalculateHeaders` → `Inject`** on every image shorter than 2^63 bytes, every
+    `headersOffset`, with or without the recalculation: a value or an error, never a panic
+    (`Uint24.SetUint32` is only ever called with values the 24-bit size fields of the same image
+    produced), and the image keeps its length -/
+theorem c20_fit_inject (bs : Bytes) (hl : bs.length < FitTotal.two63) (off : Nat) (recalc : Bool) :
+    SafeP (FitTotal.injectPipelineG (budget bs.length) bs off recalc) {} (fun r _ => r.1.length = bs.length) :=
+  FitTotal.injectPipelineG_spec _ bs off recalc {} hl (by unfold budget FitTotal.injectKSlope; dsimp only; omega)
+
+theorem c20_fit_inject_safe (bs : Bytes) (hl : bs.length < FitTotal.two63) (off : Nat) (recalc : Bool) :
+    Safe (FitTotal.injectPipelineG (budget bs.length) bs off recalc {}) := (c20_fit_inject bs hl off recalc).safe
+
+/-- `Inject` of **any** entry list (not only a parsed one) into any image at any offset -/
+theorem c20_fit_inject_any_safe (img : Bytes) (es : List Fit.Entry) (off : Nat) :
+    Safe (FitTotal.injectG (budget img.length + 32 * es.length) img es off {}) :=
+  (FitTotal.injectG_spec _ img es off {} (by unfold budget; dsimp only; omega)).safe
+
+/-- the `ParseData` dispatch of the key-manifest and boot-policy-manifest records on hostile data
+    segments: `DetectBGV`, then the Boot Guard 1.0 or the CBnT reader of the regenerated layouts -/
+def recordSafe (q1 q2 : String) (bs : Bytes) : Prop :=
+  match Manifest.sdefOf Manifest.Tie.src 8 q1, Manifest.sdefOf Manifest.Tie.src 8 q2 with
+  | some S1, some S2 =>
+    Safe (FitTotal.parseRecordG (fun d => ManifestTotal.readG (budget bs.length) S1.body [] d)
+      (fun d => ManifestTotal.readG (budget bs.length) S2.body [] d) bs {})
+  | _, _ => False
+
+theorem c20_fit_km_record_safe (bs : Bytes) : recordSafe "bgkey.Manifest" "cbntkey.Manifest" bs := by
+  have h1 := c20_manifest_generated_safe "bgkey.Manifest" (by decide) bs
+  have h2 := c20_manifest_generated_safe "cbntkey.Manifest" (by decide) bs
+  unfold manifestSafe at h1 h2
+  unfold recordSafe
+  cases hS1 : Manifest.sdefOf Manifest.Tie.src 8 "bgkey.Manifest" with
+  | none => exact absurd hS1 (by decide)
+  | some S1 =>
+    cases hS2 : Manifest.sdefOf Manifest.Tie.src 8 "cbntkey.Manifest" with
+    | none => exact absurd hS2 (by decide)
+    | some S2 =>
+      simp only [hS1] at h1
+      simp only [hS2] at h2
+      simp only
+      have g1 : SafeP (ManifestTotal.readG (budget bs.length) S1.body [] bs) {} (fun _ _ => True) := by
+        unfold SafeP; unfold Safe at h1; split at h1 <;> simp_all
+      have g2 : SafeP (ManifestTotal.readG (budget bs.length) S2.body [] bs) {} (fun _ _ => True) := by
+        unfold SafeP; unfold Safe at h2; split at h2 <;> simp_all
+      exact (FitTotal.parseRecordG_spec _ _ bs {} _ g1 g2).safe
 
 /-! ## the unrepaired code does *not* satisfy the statements (witnesses replayed on the
     implementation by corpus/C20) -/
@@ -306,5 +515,93 @@ set_option maxRecDepth 100000 in
 example : (match ApcbTotal.parseG (budget apcbSample.length) apcbSample {} with
     | .ok (n, m) => some (n, m.alloc)
     | .error _ => none) = some (2, 2 * ApcbTotal.tokenMem) := by decide
+
+/-- the boot-policy-manifest record: the same dispatch over the two element containers -/
+def recordSafeC (q1 q2 : String) (bs : Bytes) : Prop :=
+  match Manifest.containerOf Manifest.Tie.src 8 q1 (Manifest.Tie.strictOf q1),
+        Manifest.containerOf Manifest.Tie.src 8 q2 (Manifest.Tie.strictOf q2) with
+  | some C1, some C2 =>
+    Safe (FitTotal.parseRecordG (fun d => ManifestTotal.containerG (budget bs.length) C1 d)
+      (fun d => ManifestTotal.containerG (budget bs.length) C2 d) bs {})
+  | _, _ => False
+
+set_option maxRecDepth 100000 in
+theorem c20_fit_bpm_record_safe (bs : Bytes) : recordSafeC "bgbootpolicy.Manifest" "cbntbootpolicy.Manifest" bs := by
+  have h1 := c20_manifest_generated_safe "bgbootpolicy.Manifest" (by decide) bs
+  have h2 := c20_manifest_generated_safe "cbntbootpolicy.Manifest" (by decide) bs
+  unfold manifestSafe at h1 h2
+  have n1 : Manifest.sdefOf Manifest.Tie.src 8 "bgbootpolicy.Manifest" = none := by decide
+  have n2 : Manifest.sdefOf Manifest.Tie.src 8 "cbntbootpolicy.Manifest" = none := by decide
+  simp only [n1] at h1
+  simp only [n2] at h2
+  unfold recordSafeC
+  cases hC1 : Manifest.containerOf Manifest.Tie.src 8 "bgbootpolicy.Manifest" (Manifest.Tie.strictOf "bgbootpolicy.Manifest") with
+  | none => simp only [hC1] at h1
+  | some C1 =>
+    cases hC2 : Manifest.containerOf Manifest.Tie.src 8 "cbntbootpolicy.Manifest" (Manifest.Tie.strictOf "cbntbootpolicy.Manifest") with
+    | none => simp only [hC2] at h2
+    | some C2 =>
+      simp only [hC1] at h1
+      simp only [hC2] at h2
+      simp only
+      have g1 : SafeP (ManifestTotal.containerG (budget bs.length) C1 bs) {} (fun _ _ => True) := by
+        unfold SafeP; unfold Safe at h1; split at h1 <;> simp_all
+      have g2 : SafeP (ManifestTotal.containerG (budget bs.length) C2 bs) {} (fun _ _ => True) := by
+        unfold SafeP; unfold Safe at h2; split at h2 <;> simp_all
+      exact (FitTotal.parseRecordG_spec _ _ bs {} _ g1 g2).safe
+
+/-- the central statement for the entry-point families added by the follow-up (same form as
+    `c20_total_partial`): the 33 generated manifest readers, `ParseAMDFirmware` with every entry function
+    and `GetKeys`, the FIT modifying path and the manifest-record dispatch.  Still `_partial`: what is
+    listed in checks.d/C20.json `unproved` is carried by the harness oracles only. -/
+theorem c20_total_followup_partial (bs : Bytes) (hl : bs.length < FitTotal.two63) :
+    (∀ q ∈ Gen.Manifest.structNames, manifestSafe q bs) ∧
+    Safe (AmdTotal.discoverG amdC (budget bs.length) bs {}) ∧
+    (∀ op : AmdTotal.Op, Safe (AmdTotal.firmwareOpG amdC (budget bs.length + op.extra) bs op {})) ∧
+    (∀ verify level, Safe (AmdTotal.firmwareKeysG amdC (budget bs.length) verify bs level {})) ∧
+    (∀ off recalc, Safe (FitTotal.injectPipelineG (budget bs.length) bs off recalc {})) ∧
+    recordSafe "bgkey.Manifest" "cbntkey.Manifest" bs ∧
+    recordSafeC "bgbootpolicy.Manifest" "cbntbootpolicy.Manifest" bs :=
+  ⟨fun q hq => c20_manifest_generated_safe q hq bs, c20_amd_firmware_safe bs hl, c20_amd_entries_safe bs hl,
+   fun v l => c20_amd_getkeys_safe bs hl v l, fun o r => c20_fit_inject_safe bs hl o r, c20_fit_km_record_safe bs,
+   c20_fit_bpm_record_safe bs⟩
+
+/-! ### non-vacuity of the follow-up theorems -/
+
+example : ([] : Bytes).length < AmdTotal.two63 := by decide
+
+/-- `cbnt.HashList` as rebuilt from the regenerated declarations is `Wf`, and the generic reader returns
+    a value on a list of one SHA-256-tagged 2-byte digest: 10 bytes consumed, one 32-byte item + 2 bytes allocated -/
+def hashListBytes : Bytes := [0, 0, 1, 0, 0x0b, 0, 2, 0, 0xaa, 0xbb]
+
+set_option maxRecDepth 100000 in
+example : (match Manifest.sdefOf Manifest.Tie.src 8 "cbnt.HashList" with
+    | some S => ManifestTotal.Wf S.body &&
+        (match ManifestTotal.readG (budget hashListBytes.length) S.body [] hashListBytes {} with
+         | .ok (p, m) => p.2.length == 0 && m.alloc == 34
+         | .error _ => false)
+    | none => false) = true := by decide
+
+set_option maxRecDepth 100000 in
+/-- both containers are `WfC` (part of `C20TieB.manifest_layouts_wf`); an empty input is refused by the
+    deferred missing-element check with an ordinary error -/
+example : (match Manifest.containerOf Manifest.Tie.src 8 "bgbootpolicy.Manifest" true with
+    | some C => ManifestTotal.WfC C &&
+        (match ManifestTotal.containerG (budget 0) C [] {} with | .error .err => true | _ => false)
+    | none => false) = true := by decide
+
+/-- a PSP directory with one entry parses to a value: one 16-byte entry allocated -/
+def pspTableSample : Bytes := leN 4 Amd.pspCookie ++ leN 4 0 ++ leN 4 1 ++ leN 4 0 ++
+  [0x12, 0, 0, 0] ++ leN 4 0x80 ++ leN 8 0x680
+
+example : (match AmdTotal.parsePSPG (budget pspTableSample.length) pspTableSample {} with
+    | .ok (some (t, n), m) => some (t.entries.length, n, m.alloc)
+    | _ => none) = some (1, 32, 16) := by decide
+
+set_option maxRecDepth 1000000 in
+/-- the FIT sample of above: parse, recalculate, inject at offset 0 — succeeds and keeps the length -/
+example : (match FitTotal.injectPipelineG (budget fitSample.length) fitSample 0 true {} with
+    | .ok (r, _) => some (r.1.length, r.2)
+    | .error _ => none) = some (128, true) := by decide
 
 end Fiano.C20
